@@ -102,16 +102,22 @@ Definition split_host_port_host (a : str) : option str :=
    false = req.Header.Get (first field line), true = strings.Join(req.Header.Values(..), ", ") *)
 Definition xff_read (all : bool) (h : hmap) : str :=
   if all then join comma_sp (h_values k_xff h) else h_get k_xff h.
-Definition forwarded_gen (all : bool) (r : mreq) : mreq :=
+(* when X-Forwarded-Proto/Host/Url count as absent: Tables.xfwd_fill_reads_all_lines
+   false = req.Header.Get(k) == ""                       (first field line empty)
+   true  = strings.Join(req.Header.Values(k), "") == ""  (every field line empty)   *)
+Definition fill_absent (all : bool) (k : str) (h : hmap) : bool :=
+  if all then is_empty (concat (h_values k h)) else is_empty (h_get k h).
+Definition forwarded_gen2 (fill_all all : bool) (r : mreq) : mreq :=
   if str_eqb (q_method r) m_connect then r else
   let h := q_hdr r in
-  let h1 := if is_empty (h_get k_xfp h) then h_set k_xfp (q_scheme r) h else h in
-  let h2 := if is_empty (h_get k_xfh h1) then h_set k_xfh (q_host r) h1 else h1 in
-  let h3 := if is_empty (h_get k_xfu h2) then h_set k_xfu (q_urlstr r) h2 else h2 in
+  let h1 := if fill_absent fill_all k_xfp h then h_set k_xfp (q_scheme r) h else h in
+  let h2 := if fill_absent fill_all k_xfh h1 then h_set k_xfh (q_host r) h1 else h1 in
+  let h3 := if fill_absent fill_all k_xfu h2 then h_set k_xfu (q_urlstr r) h2 else h2 in
   let ip := match split_host_port_host (q_remote r) with Some x => x | None => q_remote r end in
   let v := xff_read all h3 in
   let xff := if is_empty v then ip else v ++ comma_sp ++ ip in
   set_hdr r (h_set k_xff xff h3).
+Definition forwarded_gen := forwarded_gen2 xfwd_fill_reads_all_lines.
 
 (* ---------- header.NewBadFramingModifier ---------- *)
 Fixpoint cl_scan (len : str) (toks : list str) : option str :=
